@@ -7,9 +7,10 @@
    s : pt -> bool is the sign grid (true = sample below the cutoff); surface s lo hi is the list of
    triangles the table emits for the cells lo <= c < hi; rows i is the table row of case i;
    lcount i (u, v) counts the directed triangle edge u -> v in case i of a cell at the origin. *)
-From Coq Require Import List ZArith Bool.
+From Coq Require Import List ZArith NArith Bool QArith.
 From PFGen Require Import MarchTable.
 From PF Require Import March.Grid March.TableProps March.GridProofs March.SurfaceProofs.
+From PF Require Import March.VertexProofs March.Closed March.ClosedProofs March.Blocks March.BlocksProofs.
 Import ListNotations.
 Open Scope Z_scope.
 
@@ -77,6 +78,65 @@ Theorem table_per_edge_outward_refuted :
   exists i a b c, 0 <= i < 256 /\ In (a, b, c) (rows i) /\ dot (tnormal (a, b, c)) (outdir i a) <= 0.
 Proof. exact table_per_edge_refuted_thm. Qed.
 Print Assumptions table_per_edge_outward_refuted.
+
+(* On the isosurface.  Every vertex of every triangle of the surface lies on a grid edge whose two end
+   points are on different sides of the cutoff (so within one cell of a sign change of the samples). *)
+Theorem surface_vertex_crossed : forall (s : pt -> bool) lo hi t g,
+  In t (surface s lo hi) -> In g (tri_verts t) -> s (ge_lo g) <> s (ge_hi g).
+Proof. exact surface_vertex_crossed_thm. Qed.
+Print Assumptions surface_vertex_crossed.
+
+(* With rational samples f and the sign grid "f p < cutoff": one end point of the vertex' grid edge is below
+   the cutoff, the other at or above it, and the interpolation parameter of interpolationValueFromCutoff
+   lies in [0,1] whichever end the code starts from -- the vertex is a point of that grid edge. *)
+Theorem vertex_on_edge : forall (f : pt -> Q) (cutoff : Q) lo hi t g,
+  In t (surface (sign_grid f cutoff) lo hi) -> In g (tri_verts t) ->
+  let va := f (ge_lo g) in let vb := f (ge_hi g) in
+  ((va < cutoff /\ cutoff <= vb) \/ (vb < cutoff /\ cutoff <= va))%Q /\
+  (0 <= interp va vb cutoff <= 1)%Q /\ (0 <= interp vb va cutoff <= 1)%Q.
+Proof. exact vertex_on_edge_thm. Qed.
+Print Assumptions vertex_on_edge.
+(* iso_distance_partial -- NOT proved: the step from "sign change between two neighbouring samples" to "the
+   true isosurface of an analytic field passes within one cell" needs continuity of the field (intermediate
+   value theorem); the harness checks the sampled statement on the implementation's own field values. *)
+
+(* Storage blocks.  A lattice coordinate (negative ones included) splits uniquely into block = floor(x/100)
+   and local index in 0..99 ... *)
+Theorem chunk_local_spec : forall x, x = bs * chunk_of x + local_of x /\ 0 <= local_of x < bs.
+Proof. exact chunk_local_spec_thm. Qed.
+Print Assumptions chunk_local_spec.
+
+(* ... and for every block b, local cell l in 0..99^3 and corner k, the block and index that
+   marchFloat1BlockPosition computes (neighbour chosen by l = 99 per axis, local coordinate reset to 0 there)
+   address lattice point 100*b + l + incr k, with the index inside the block read.  Given the storage layout of
+   addFloat1Range, the value fetched is therefore that lattice point's sample. *)
+Theorem block_fetch_correct : forall (A : Type) (sample : pt -> A) (store : pt -> Z -> A),
+  (forall blk loc, in_block loc -> store blk (index loc) = sample (padd (pscale bs blk) loc)) ->
+  forall b l k, in_block l -> 0 <= k < 8 ->
+  fetched store b l k = sample (padd (padd (pscale bs b) l) (incr k)).
+Proof. exact block_fetch_correct_thm. Qed.
+Print Assumptions block_fetch_correct.
+(* blocks_cover_partial -- NOT proved: that every cell with a below-cutoff corner is visited by exactly one block
+   whose eight neighbour blocks exist (fieldBounds padding + chunkSectionsInRange); tied by the correspondence
+   check only (shapes on/near block boundaries in every axis, negative blocks). *)
+
+(* The oracle used on the implementation's output is sound: iclosedb ts = true implies that every directed
+   edge of the index triangle list occurs at most once and its reverse exactly as often. *)
+Theorem iclosedb_sound : forall ts : list itri, iclosedb ts = true ->
+  forall e, icount e (iedges ts) = icount (ie_swap e) (iedges ts) /\ (icount e (iedges ts) <= 1)%nat.
+Proof. exact iclosedb_sound_thm. Qed.
+Print Assumptions iclosedb_sound.
+
+(* The weld (any identification lab of vertices, then dropping triangles with two equal corners) keeps every
+   directed edge between two different vertices balanced with its reverse.  weld_manifold_partial -- what it does
+   NOT keep is "at most once": identifying the crossing points of two grid edges can make an edge with four
+   incident triangles (found on the real code at 400 cubes per unit and with samples exactly on the cutoff). *)
+Theorem weld_keeps_balance : forall (lab : N -> N) (ts : list itri),
+  (forall e, icount e (iedges ts) = icount (ie_swap e) (iedges ts)) ->
+  forall e, fst e <> snd e ->
+  icount e (iedges (weld_tris lab ts)) = icount (ie_swap e) (iedges (weld_tris lab ts)).
+Proof. exact weld_keeps_balance_thm. Qed.
+Print Assumptions weld_keeps_balance.
 
 (* non-vacuity: a single below-cutoff sample at the origin inside the box (-1,-1,-1)..(1,1,1) gives the
    octahedron of 8 triangles, closed and without degenerate faces *)
